@@ -20,12 +20,13 @@ type vfLive struct {
 }
 
 
-// request sizes: 0, then classes [base, base+7]: 1..8, 9..16, 17..24 (l24), 25..32 (l32), 41..48 (l48),
-// 73..80 (l80), 81..88 (smallest variable block), 121..128, 193..200
-var vfClassBase = []uint32{0, 1, 9, 17, 25, 41, 73, 81, 121, 193}
+// request sizes: 0, then classes [base, base+7]: 1..8, 9..16, 17..24 (l24), 25..32 (l32), 33..40 and 41..48 (l48), 49..56,
+// 73..80 (l80), 81..88 (smallest variable block), 121..128, 193..200, and two huge classes 60001.. and 70001..
+// (two of them do not fit into the 2-page modules: the allocation must fail cleanly and leave the heap intact)
+var vfClassBase = []uint32{0, 1, 9, 17, 25, 33, 41, 49, 73, 81, 121, 193, 60001, 70001}
 
-// configurations built by the driver: malloc_cap0, malloc_cap2, malloc_cap100
-var vfHeapMods = []string{"malloc_cap2", "malloc_cap0", "malloc_cap100", "rtheap"}
+// configurations built by the driver: malloc_cap0, malloc_cap1, malloc_cap2, malloc_cap100
+var vfHeapMods = []string{"malloc_cap2", "malloc_cap0", "malloc_cap100", "rtheap", "malloc_cap1"}
 
 // rtheap is the copy of the allocator inside a compiled Wa program (waroot/src/runtime/heap_malloc.wat.ws):
 // entry points runtime.malloc / runtime.free, exported by the driver as vf:runtime.malloc / vf:runtime.free.
@@ -111,7 +112,7 @@ func VfH_heap() {
 	k := vfCase()
 	nc := len(vfClassBase)
 	nOps, mod, first := vfOpsMin+k/(len(vfHeapMods)*nc), vfHeapMods[k/nc%len(vfHeapMods)], k%nc
-	vfNote("case:" + mod + "/ops=" + string(rune('0'+nOps)) + "/first=" + string(rune('0'+first)))
+	vfNote("case:" + mod + "/ops=" + string(rune('0'+nOps)) + "/first=" + string(rune('a'+first)))
 	h := vfWasmLoad(mod)
 	fnMalloc, fnFree := "wa_malloc", "wa_free"
 	if mod == "rtheap" {
@@ -145,6 +146,7 @@ func VfH_heap() {
 			if cls > 0 {
 				req += uint32(vfU8("d"+names[op]) & 7)
 			}
+			hpBefore := vfWasmGlobal(h, "__heap_ptr")
 			res, tr := vfWasmCall(h, fnMalloc, uint64(req))
 			vfAssert(!tr, "heap/malloc-does-not-trap")
 			if tr {
@@ -153,9 +155,13 @@ func VfH_heap() {
 			p := uint32(res[0])
 			vfObserve("p"+names[op], uint64(p))
 			if p == 0 {
-				// with 2 pages available and requests of at most 200 bytes allocation cannot fail
-				vfAssert(false, "heap/malloc-fails-only-when-memory-is-exhausted")
-				return
+				// failure is legitimate only when the block cannot be placed below the module's memory maximum
+				// (2 pages for the malloc_* modules; the compiled program's heap is never exhausted within the bound);
+				// the heap must be left intact, which the clauses below check
+				fits := hpBefore+8+uint64((req+7)&^7) <= 2*65536
+				vfAssert(mod != "rtheap" && !fits, "heap/malloc-fails-only-when-memory-is-exhausted")
+				vfHeapCheck(h, live, nOps, "heap")
+				continue
 			}
 			size := vfRd32(h, p-8)
 			mark := byte(0xA0 + op)
